@@ -75,16 +75,17 @@ func c16Case(c *lib.Ctx, idx uint64) {
 		ft = []byte{0xFF, 0xF7, 0xFE, 100, 0, 8, 40, 200}[idx/85%8]
 	}
 	o := lib.GenOpts{
-		FileType:   ft,
-		Records:    8 + rng.Intn(40),
-		Locals:     1 + rng.Intn(6),
-		Redefine:   20,
-		BigEndian:  50,
-		Unknown:    70,
-		BigFileId:  4,
-		RepeatPrev: 8,
-		MaxFields:  4,
-		Narrow:     5,
+		FileType:    ft,
+		Records:     8 + rng.Intn(40),
+		Locals:      1 + rng.Intn(6),
+		Redefine:    20,
+		BigEndian:   50,
+		Unknown:     70,
+		BigFileId:   4,
+		RepeatPrev:  8,
+		DevDescribe: 30,
+		MaxFields:   4,
+		Narrow:      5,
 		// compressed-timestamp headers on known and unknown messages: whatever the
 		// options do, they must not change how the time reference advances
 		Compressed:    30,
